@@ -1,7 +1,7 @@
 (* C14 -- a patch touches only the target's entry bytes and leaves pages read+execute.
    Statements are about PageStart / the mProtectCrossPage loop / the WriteTo step order REGENERATED from the source. *)
 From Goom Require Import Base.MachineInt Model.WriteTo Model.JumpEnc Proofs.WriteToProofs Tie.PageTie Tie.JumpTie Model.FuncSize Proofs.FuncSizeProofs.
-From Goom Require Gen.Page Gen.JumpAmd64.
+From Goom Require Gen.Page Gen.JumpAmd64 Gen.LocksMemory Tie.LocksTie.
 Open Scope Z_scope.
 
 (* WriteTo as the source has it: protection passes over the pages produced by the source's loop, in the source's order *)
@@ -103,3 +103,11 @@ Example C14_extent_nonvacuous :
   accepts [IOrd 3 false; IOrd 5 false; IOrd 1 false; IInt3 false; IInt3 false; IOrd 4 false] = false /\
   accepts [IOrd 7 false; IOrd 5 false; IOrd 1 true; IOrd 9 false] = true.
 Proof. vm_compute. repeat split; reflexivity. Qed.
+
+(* ---- one write is one critical section (regenerated lock sites of package memory, Tie/LocksTie) ---- *)
+(* "a write lands intact ... pages remain executable throughout" also needs that the sequence mprotect(RWX); copy;
+   mprotect(RX) of one writer cannot interleave with that of another writer of the same page (the second mprotect of one
+   would take the write permission away under the copy of the other): every step of WriteTo is under memoryAccessLock *)
+Theorem C14_write_sequence_is_one_critical_section : Tie.LocksTie.write_sequence_atomic_stmt.
+Proof. exact Tie.LocksTie.write_sequence_atomic. Qed.
+Print Assumptions C14_write_sequence_is_one_critical_section.
